@@ -820,7 +820,7 @@ def churn(ctx, rng, T, p_yield, seconds):
     j = J.load()
     pw = gen.new_oct(256)
     ec = gen.new_ec("P-256")
-    n_set = 300 if ctx.tier == "quick" else 1200
+    n_set = 240 if ctx.tier == "quick" else 1200
     sets = {"pbes2": [], "hs": [], "ecdh": [], "gcmkw": []}
     for i in range(n_set):
         pt = b"churn %d" % i
@@ -875,6 +875,103 @@ def churn(ctx, rng, T, p_yield, seconds):
                       f"{fam} token was not consumed as in isolation: {detail}", {"mode": "churn", "threads": T, "family": fam})
 
 
+def memo_probe(ctx, rng, sysm: Systematic, seconds):
+    """does a consuming call get faster when the same token comes again (something derived is remembered)?  Measured where a derivation is expensive enough
+    to tell (PBES2 with a high iteration count).  If so: how many other derivations push the remembered value out (binary search over fillers), and then the
+    two-thread schedules of `the remembered token once more` against `one more new token`, started from the state in which the remembered value is the next
+    to go - every preemption point, the state rebuilt before each schedule.  Nothing is concluded from timing itself: it only picks the state to explore."""
+    j = J.load()
+    t_end = time.time() + seconds
+    pw = gen.new_oct(256)
+    kpw = j.key(pw)
+    alg, enc = "PBES2-HS256+A128KW", "A128GCM"
+    reg = j.jwe.JWERegistry(algorithms=[alg, enc])
+    pt = b"memo probe"
+    slow = 60000
+
+    def mk(p2c):
+        return g.make("compact", enc, [(alg, pw, None)], pt, p2c=p2c).token
+
+    def consume(tok):
+        return j.jwe.decrypt_compact(tok, kpw, registry=reg).plaintext
+
+    def timed(tok):
+        t0 = time.perf_counter()
+        consume(tok)
+        return time.perf_counter() - t0
+    T0 = mk(slow)
+    cold = sorted(timed(mk(slow)) for _ in range(3))[0]
+    timed(T0)
+    again = sorted(timed(T0) for _ in range(3))[0]
+    ctx.count("memo_probes")
+    ctx.extra["memo_probe_cold_ms"] = round(cold * 1000, 2)
+    ctx.extra["memo_probe_again_ms"] = round(again * 1000, 2)
+    if again > 0.4 * cold:
+        ctx.cell("memo-probe", "nothing-remembered")
+        return
+    ctx.count("memos_detected")
+    import itertools
+    pool = [mk(1) for _ in range(700 if ctx.tier == "quick" else 9000)]      # used round robin: far more than what was found to be remembered
+    fillers = itertools.cycle(pool)
+
+    def remembered_after(k):
+        consume(T0)
+        for _ in range(k):
+            consume(next(fillers))
+        return timed(T0) < 0.4 * cold
+    hi = 1
+    while hi <= 8192 and 2 * hi <= len(pool) and remembered_after(hi):
+        hi *= 2
+        if time.time() > t_end:
+            return
+    if hi > 8192 or 2 * hi > len(pool):
+        ctx.cell("memo-probe", "remembered-without-bound" if hi > 8192 else "remembers-more-than-the-quick-tier-explores")
+        return
+    lo = hi // 2            # remembered after lo fillers, gone after hi
+    while hi - lo > 1 and time.time() < t_end:
+        mid = (lo + hi) // 2
+        if remembered_after(mid):
+            lo = mid
+        else:
+            hi = mid
+    ctx.extra["memo_probe_capacity_estimate"] = lo + 1
+    ctx.cell("memo-probe", "bounded")
+
+    def prime(k):
+        consume(T0)
+        for _ in range(k):
+            consume(next(fillers))
+    n_sched = 0
+    for k, first in ((lo, 0), (lo, 1), (lo - 1, 0), (lo + 1, 0), (lo - 1, 1), (lo + 1, 1)):
+        if k < 0:
+            continue
+        for _once in (0,):
+            i, n_first = 1, 400
+            while i <= n_first + 2 and time.time() < t_end:
+                sysm.hook.stop()          # the state is rebuilt without the line callback (a hundred and more calls per schedule)
+                prime(k)
+                fresh = next(fillers)
+                sysm.hook.start()
+                ops = [lambda: call(consume, T0), lambda fresh=fresh: call(consume, fresh)]
+                try:
+                    outs, counts, sp = sysm.run(ops, [(first, i), (1 - first, INF), (first, INF)])
+                except Stuck:
+                    ctx.count("schedules_stuck")
+                    break
+                n_sched += 1
+                ctx.count("schedules")
+                ctx.nontrivial(("memo-sched", k, first, i))
+                n_first = counts[first] if counts[first] >= i else n_first
+                for which, o in enumerate(outs):
+                    if o is None or not o.ok or o.value != pt:
+                        ctx.violation(f"memo-eviction-race:{getattr(o, 'etype', None)}", f"a PBES2 token consumed while another thread consumes a new one, in the state where what the "
+                                      f"library remembers of the first is the next to be dropped (after {k} other derivations; schedule: thread {first} preempted after {i} lines): "
+                                      f"{'first' if which == 0 else 'second'} call gave {getattr(o, 'exc', o)!r}", {"mode": "memo-probe", "fillers": k, "plan": [[first, i], [1 - first, "inf"], [first, "inf"]]})
+                        return
+                i += 1
+    ctx.count("memo_probe_schedules", n_sched)
+
+
 def run_shard(ctx):
     j = J.load()
     J.register_drafts()
@@ -889,9 +986,17 @@ def run_shard(ctx):
     quick = ctx.tier == "quick"
     total = ctx.budget_s
     if sh in (14, 15):
-        # two shards spend the larger part of their budget on working-set churn
-        churn(ctx, rng, 8 if sh == 15 else 3, [0.3, 0.1][sh - 14], 0.6 * total)
-        total = ctx.budget_s = ctx.elapsed() + 0.4 * total
+        # two shards spend a third of their budget on working-set churn
+        churn(ctx, rng, 8 if sh == 15 else 3, [0.3, 0.1][sh - 14], 0.25 * total)
+        total = ctx.budget_s = max(total, ctx.elapsed() + 0.2 * total)
+    if sh == 13:
+        sysm0 = Systematic()
+        try:
+            t_probe = ctx.elapsed()
+            memo_probe(ctx, rng, sysm0, 0.8 * total)      # returns at once when nothing is remembered
+        finally:
+            sysm0.close()
+        total = ctx.budget_s = ctx.elapsed() + max(0.2 * total, total - (ctx.elapsed() - t_probe))
     # (a) 15 % of the budget
     ctx.budget_s = ctx.elapsed() + 0.15 * total
     sequential(ctx, spec, ops, base, rng, 3 if quick else 400, 500)
@@ -953,6 +1058,14 @@ def replay(ctx, case):
                 check_outcome(ctx, "schedule", ob, outs[1], base, case)
         finally:
             sysm.close()
+    elif case.get("mode") == "memo-probe":
+        sysm = Systematic()
+        try:
+            memo_probe(ctx, ctx.rng, sysm, 120)
+        finally:
+            sysm.close()
+    elif case.get("mode") == "churn":
+        churn(ctx, ctx.rng, case.get("threads", 8), 0.3, 30)
     elif case.get("mode") == "cold-start":
         sel = [o for o in case["ops"]]
         base = {canon(o): outcome_class(exec_op(World(spec), o)) for o in sel}
